@@ -62,6 +62,12 @@ class Tracer:
         self.code_seq = R._validate_sequence.__code__
         self.merge_line = {self.code_seq: _for_body_first_line(R._validate_sequence, 0), self.code_choice: _for_body_first_line(R._validate_choice, 0)}
         self.obs = []
+        # locals of the matcher that the observations read, under their current names (pyvc.alpha: pure renamings are followed)
+        from pyvc import alpha
+        self.occ_name = alpha.current_names(R._validate_rule_child).get("occurrence", "occurrence")
+        self.cocc_name = alpha.current_names(R._validate_choice).get("choice_occurrence", "choice_occurrence")
+        self.seq_child_name = alpha.current_names(R._validate_sequence).get("rule_child", "rule_child")
+        self.alt_child_name = alpha.current_names(R._validate_choice).get("rule_child", "rule_child")
 
     def run(self, word, mixed, collecting):
         Node.store.clear()
@@ -110,9 +116,9 @@ class Tracer:
     def observe_merge(self, frame, word, errs):
         loc = frame.f_locals
         rc = loc["rule_children"]
-        child = loc["rule_child"]
-        idx = next(i for i, x in enumerate(rc) if x is child)
         is_alt = frame.f_code is self.code_choice
+        child = loc[self.alt_child_name if is_alt else self.seq_child_name]
+        idx = next(i for i, x in enumerate(rc) if x is child)
         rec = {"cut": "alt" if is_alt else "seq", "path": self.paths.get(id(rc)), "limit_max": idx, "counter": 0,
                "enclosing": self.context_of(frame, include_self=is_alt), "cursor": loc["self"]._node_index, "err": bool(errs), "word": tuple(word)}
         self.obs.append(rec)
@@ -123,7 +129,7 @@ class Tracer:
         f = frame if include_self else frame.f_back
         while f is not None:
             if f.f_code is self.code_choice:
-                enc.append((self.paths.get(id(f.f_locals["rule_children"])), f.f_locals["choice_occurrence"]))
+                enc.append((self.paths.get(id(f.f_locals["rule_children"])), f.f_locals[self.cocc_name]))
             f = f.f_back
         return tuple(reversed(enc))
 
@@ -131,9 +137,9 @@ class Tracer:
         loc = frame.f_locals
         r = loc["self"]
         if frame.f_code is self.code_item:
-            rec = {"cut": "item", "path": self.paths.get(id(loc["rule_child"])), "limit_max": bool(loc["limit_max"]), "counter": loc["occurrence"]}
+            rec = {"cut": "item", "path": self.paths.get(id(loc["rule_child"])), "limit_max": bool(loc["limit_max"]), "counter": loc[self.occ_name]}
         else:
-            rec = {"cut": "choice", "path": self.paths.get(id(loc["rule_children"])), "limit_max": None, "counter": loc["choice_occurrence"]}
+            rec = {"cut": "choice", "path": self.paths.get(id(loc["rule_children"])), "limit_max": None, "counter": loc[self.cocc_name]}
         rec["enclosing"] = self.context_of(frame)
         rec["cursor"] = r._node_index
         rec["err"] = bool(errs)
